@@ -109,7 +109,7 @@ class Policy(ABC):
         times = np.arange(len(rs))
         rel_times = times - times[:, np.newaxis]
         rel_times = rel_times
-        discounts = np.triu(np.power(discount_rate, rel_times))
+        discounts = np.triu(np.power(float(discount_rate), rel_times))
         rets = discounts@rs
         return list(rets)
 
